@@ -162,10 +162,13 @@ def run(cx):
                   where=s, found='; '.join(cx.show_guards(b, s.bb)))
             continue
         # (c) arithmetic progression with a provably non-negative step
-        ok_shape = fresh and len(elems) == 1 and elems[0][0] == 'Vec::push'
+        # (a push loop over 0..n, or `(0..n).map(..).collect()`: one comprehension with no filter)
+        from vpa import comp as CMP
+        comps = [c for c in CMP.comprehensions(cx, b, v) if c.get('elem') is not None]
+        ok_shape = len(comps) == 1 and not comps[0]['conds'] and (comps[0]['form'] != 'loop' or fresh)
         e = None
         if ok_shape:
-            el = elems[0][2][0]
+            el = comps[0]['elem']
             e = match('(add $lo (mul (cast f64 (itervar (range 0 $n))) (div (sub $hi $lo) (cast f64 (sub $n 1)))))', el)
         cx.ob('CONSTRUCT', f'{key}:progression-shape', e is not None,
               f'{fname}: values are pushed as lo + i*((hi-lo)/(n-1)) for i in 0..n (neither validated nor empty, so the progression form is required)',
